@@ -18,6 +18,13 @@ package handler
 //     => sret=… atret=<view> results=… final=<view>
 //   dl <parentMs|none> <durMs> <hdr>         deadline seen by the handler
 //     => dl=<none|parent|window|early|late>
+//   pair <same|own> <kindA> <ka> <kindB> <kb> <la> <actA>* / <actB>*
+//       TWO requests in flight together (through one TimeoutHandler instance, or one each): A runs ka steps and is
+//       ended (expiry / completion) so that its ServeHTTP returns while its handler may still be running; then B
+//       starts and runs kb steps; then A's handler performs la LATE actions while B is in flight; then B is ended;
+//       then the rest of both handlers.  Whatever the wrapper keeps between requests (pooled writers, buffers,
+//       package-level state) shows up as A's late actions in B's response or as B's state in A's results.
+//     => asret= aatret= aresults= afinal= bsret= batret= bresults= bfinal= leak=
 //   view = <status>/<k:v;…|->/<body|->      (X-V<k> headers of the response as the client sees it)
 
 import (
@@ -498,6 +505,146 @@ func c04Hijack(op []string) string {
 	return "hijack=" + out
 }
 
+// c04Req: one request with a gated handler script (used by `pair`).
+type c04Req struct {
+	name    string
+	kind    string
+	acts    []string
+	parent  *c04Ctx
+	gate    chan struct{}
+	ack     chan string
+	rec     *httptest.ResponseRecorder
+	sdone   chan string
+	results []string
+	alive   bool
+}
+
+func newC04Req(name, kind string, acts []string) *c04Req {
+	return &c04Req{name: name, kind: kind, acts: acts, parent: newC04Ctx(), gate: make(chan struct{}), ack: make(chan string),
+		rec: httptest.NewRecorder(), sdone: make(chan string, 1), alive: true}
+}
+
+// handle is the body of the wrapped handler for this request.
+func (q *c04Req) handle(w http.ResponseWriter) {
+	for _, a := range q.acts {
+		<-q.gate
+		func() {
+			defer func() {
+				if p := recover(); p != nil {
+					q.ack <- "p" + strings.TrimPrefix(c04PanicTok(p), "panic:")
+					panic(p)
+				}
+			}()
+			res := c04Do(w, a)
+			q.ack <- res
+		}()
+	}
+	<-q.gate
+	q.ack <- "ret"
+}
+
+func (q *c04Req) start(th http.Handler) {
+	req := c04Request("plain", q.parent)
+	req.Header.Set("X-C04-Req", q.name)
+	go func() {
+		defer func() {
+			if p := recover(); p != nil {
+				q.sdone <- c04PanicTok(p)
+				return
+			}
+			q.sdone <- "done"
+		}()
+		th.ServeHTTP(q.rec, req)
+	}()
+}
+
+func (q *c04Req) steps(n int) {
+	for i := 0; i < n && q.alive; i++ {
+		q.gate <- struct{}{}
+		a := <-q.ack
+		q.results = append(q.results, a)
+		if a == "ret" || strings.HasPrefix(a, "p") {
+			q.alive = false
+		}
+	}
+}
+
+func (q *c04Req) fire() {
+	switch q.kind {
+	case "deadline":
+		q.parent.fire(context.DeadlineExceeded)
+	case "cancel":
+		q.parent.fire(context.Canceled)
+	}
+}
+
+// end: the expiry (if the handler is still running) or the handler's own end makes ServeHTTP return.
+func (q *c04Req) end() string {
+	if !q.alive {
+		s, _ := c04WaitS(q.sdone, c04StuckBound(), "stuck")
+		q.fire()
+		return s
+	}
+	q.fire()
+	s, _ := c04WaitS(q.sdone, c04StuckBound(), "stuck")
+	return s
+}
+
+func c04Pair(op []string) string {
+	inst, kindA, ka, kindB, kb, la := op[1], op[2], verifh.Atoi(op[3]), op[4], verifh.Atoi(op[5]), verifh.Atoi(op[6])
+	var actsA, actsB []string
+	cur := &actsA
+	for _, a := range op[7:] {
+		if a == "/" {
+			cur = &actsB
+			continue
+		}
+		*cur = append(*cur, a)
+	}
+	base := runtime.NumGoroutine()
+	a, b := newC04Req("A", kindA, actsA), newC04Req("B", kindB, actsB)
+	reqs := map[string]*c04Req{"A": a, "B": b}
+	inner := http.HandlerFunc(func(w http.ResponseWriter, r *http.Request) {
+		reqs[r.Header.Get("X-C04-Req")].handle(w)
+	})
+	thA := TimeoutHandler(time.Hour)(inner)
+	thB := thA
+	if inst == "own" {
+		thB = TimeoutHandler(2 * time.Hour)(inner)
+	}
+	all := len(actsA) + len(actsB) + 2
+	a.start(thA)
+	if kindA == "none" {
+		ka = all
+	}
+	a.steps(ka)
+	sretA := a.end()
+	atretA := c04View(a.rec)
+	b.start(thB)
+	b.steps(kb)
+	a.steps(la)
+	if kindB == "none" {
+		b.steps(all)
+	}
+	sretB := b.end()
+	atretB := c04View(b.rec)
+	a.steps(all)
+	b.steps(all)
+	if sretA == "stuck" {
+		sretA, _ = c04WaitS(a.sdone, c04StuckBound(), "stuck")
+	}
+	if sretB == "stuck" {
+		sretB, _ = c04WaitS(b.sdone, c04StuckBound(), "stuck")
+	}
+	finalA, finalB := c04View(a.rec), c04View(b.rec)
+	leak := 0
+	if !verifh.SettleGoroutines(base, time.Second) {
+		leak = 1
+	}
+	return fmt.Sprintf("asret=%s aatret=%s aresults=%s afinal=%s bsret=%s batret=%s bresults=%s bfinal=%s leak=%d",
+		sretA, atretA, strings.Join(a.results, ","), finalA, sretB, atretB, strings.Join(b.results, ","), finalB, leak)
+}
+
 func c04Script(r *verifh.Rng, flush bool) []string {
 	n := r.Pick(0, 1, 2, 3, 3, 4, 5, 6)
 	var acts []string
@@ -637,6 +784,28 @@ func c04Gen(r *verifh.Rng) []verifh.Section {
 		}
 	}
 	secs = append(secs, verifh.Section{Cfg: "wrapper=rest mode=hijack", Ops: ops})
+	// two requests in flight together: nothing of one may show up in the other
+	npair := verifh.Scale(3, 30)
+	for i := 0; i < npair; i++ {
+		ops = nil
+		for j := 0; j < 24; j++ {
+			actsA, actsB := c04Script(r, i%3 != 1), c04Script(r, i%3 != 1)
+			kindA := r.PickS("deadline", "cancel", "deadline", "cancel", "none")
+			kindB := r.PickS("none", "none", "deadline", "cancel")
+			ka := r.Intn(len(actsA) + 1)
+			if r.Chance(1, 8) {
+				ka = len(actsA) + 1
+			}
+			kb := r.Intn(len(actsB) + 2)
+			la := r.Intn(len(actsA) + 2)
+			if r.Chance(1, 2) {
+				la = len(actsA) + 1
+			}
+			ops = append(ops, strings.TrimSpace(fmt.Sprintf("pair %s %s %d %s %d %d %s / %s", r.PickS("same", "same", "own"), kindA, ka, kindB, kb, la,
+				strings.Join(actsA, " "), strings.Join(actsB, " "))))
+		}
+		secs = append(secs, verifh.Section{Cfg: "wrapper=rest mode=pair", Ops: ops})
+	}
 	return secs
 }
 
@@ -653,6 +822,8 @@ func TestVerifC04Rest(t *testing.T) {
 				return c04Deadline(op)
 			case "hij":
 				return c04Hijack(op)
+			case "pair":
+				return c04Pair(op)
 			}
 			return "bad-op"
 		}
